@@ -106,7 +106,3 @@ func cmdRun(args []string) {
 	}
 }
 
-func cmdCheck(args []string) {
-	fmt.Println("not yet")
-	os.Exit(2)
-}
